@@ -580,34 +580,57 @@ func (w *World) checkAdmission(hs []block.NewHeaderEvent, ds []block.NewDataEven
 			c.Report("C03/da-header/marked-da-included-without-a-validly-signed-blob", "header hash "+h)
 		}
 	}
-	// marks: every mark must belong to a blob signed by the proposer
+	// marks: every data mark must belong to a blob signed by the proposer; the cause is classified per commitment
+	// from the blobs carrying it (a different violation gets a different signature)
 	dm := w.env.M.DataCache().VerifDAIncluded()
+	type cause struct {
+		genuine, foreignKey, foreignAddr bool
+		height                           uint64
+	}
+	byCommit := map[string]*cause{}
+	var order []string
 	for _, p := range w.placed {
 		var sd types.SignedData
 		if err := sd.UnmarshalBinary(p.blob); err != nil || len(sd.Txs) == 0 || sd.Signer.PubKey == nil {
 			continue
 		}
-		if _, ok := dm[sd.Data.DACommitment().String()]; !ok {
+		k := sd.Data.DACommitment().String()
+		if _, ok := dm[k]; !ok {
 			continue
+		}
+		cs := byCommit[k]
+		if cs == nil {
+			cs = &cause{height: dHeight(&sd.Data)}
+			byCommit[k] = cs
+			order = append(order, k)
 		}
 		if genuineData(pub, &sd) {
+			cs.genuine = true
 			continue
 		}
-		// is there a genuine blob with the same commitment? then the mark may be its
-		other := false
-		for _, q := range w.placed {
-			var sq types.SignedData
-			if err := sq.UnmarshalBinary(q.blob); err == nil && sq.Signer.PubKey != nil && genuineData(pub, &sq) &&
-				string(sq.Data.DACommitment()) == string(sd.Data.DACommitment()) {
-				other = true
-			}
+		selfOK := false
+		if pl, err := sd.Data.MarshalBinary(); err == nil {
+			selfOK, _ = sd.Signer.PubKey.Verify(pl, sd.Signature)
 		}
-		if !other {
-			if string(sd.Signer.Address) != string(w.env.Gen.ProposerAddress) {
-				c.Report("C03/data/accepted-with-foreign-signer-address", fmt.Sprintf("height %d", dHeight(&sd.Data)))
-			} else {
-				c.Report("C03/da-data/accepted-under-proposer-address-with-foreign-key", fmt.Sprintf("height %d", dHeight(&sd.Data)))
-			}
+		if !selfOK {
+			continue
+		}
+		if string(sd.Signer.Address) == string(w.env.Gen.ProposerAddress) {
+			cs.foreignKey = true
+		} else {
+			cs.foreignAddr = true
+		}
+	}
+	for _, k := range order {
+		cs := byCommit[k]
+		switch {
+		case cs.genuine:
+		case cs.foreignKey:
+			c.Report("C03/da-data/accepted-under-proposer-address-with-foreign-key", fmt.Sprintf("height %d", cs.height))
+		case cs.foreignAddr:
+			c.Report("C03/data/accepted-with-foreign-signer-address", fmt.Sprintf("height %d", cs.height))
+		default:
+			c.Report("C03/da-data/marked-da-included-without-a-validly-signed-blob", fmt.Sprintf("height %d", cs.height))
 		}
 	}
 }
